@@ -59,7 +59,9 @@ TECHNIQUE = (
     "(text redacted, tag added in place, priority, time stamp and stack trace replaced); every later reading of the same log in the process - "
     "the same reader object, a fresh reader, another container with the same lines, hr in-process - is compared with the shadow list as "
     "before (a result that shows the marks of the harness is attributed to the edits). Unusual input: plain, .gz and stdin-pipe containers "
-    "whose last record is not followed by a newline, in every mode"
+    "whose last record is not followed by a newline, in every mode. Environment of the run: every shard writes and reads its logs in a "
+    "process with another local time zone (TZ: UTC, east and west of UTC, offsets of whole hours, half hours and quarter hours, a zone "
+    "with daylight saving time in force); the time stamp read back is compared with the instant Python's logging stamped on the record"
 )
 LEVEL_TEXT = (
     "Exploration: some hundred (quick) to ten thousand (thorough) generated logs of length 0..3000 (arbitrary Unicode scalar "
@@ -71,7 +73,8 @@ LEVEL_TEXT = (
     "26 000..110 000 records logged in one tight loop. About a fifth of the logs is written to a path at which a file exists already; "
     "about half of the reader histories run with a second reader object open on another log. All record objects handed out by in-process "
     "readers are edited by the harness after judgement, so every reading but the first of a log is a reading after a caller's edits; three of the "
-    "twelve hr containers and two of the nine reader containers end without a final newline. Held means held on those logs and mode parameters."
+    "twelve hr containers and two of the nine reader containers end without a final newline. The 16 shards run under ten local time zones (UTC-11..UTC+14, four of them west of UTC with an offset "
+    "that is no whole number of hours). Held means held on those logs and mode parameters."
 )
 LEVEL_NOTE = (
     "Trusted: the list model in vf/models/logmodel.py, the zstandard/gzip libraries used to derive the other containers from "
@@ -115,12 +118,15 @@ RULE = (
     "to hr's stdin); they take part in the enumeration / sampling like every other container, and every log gets len and offset -1 | offset N-1 | "
     "reverse on one of them and one hr --tail. Consumer edits: after the oracle has judged the result of a reader operation (fresh reader cases and "
     "every operation of a history), each returned record object gets data = its marker + a stamp, tags.append(stamp tag) (or tags = [stamp tag]), "
-    "priority = 0, _python_level_no = 50, datetime = a constant, stacktrace = 'edited'"
+    "priority = 0, _python_level_no = 50, datetime = a constant, stacktrace = 'edited'. "
+    "Local time zone: shard i of seed s runs with TZ = ZONES[(i + s) mod 10] (POSIX TZ strings: unset, +05:30, -03, -03:30, +12:45, -09:30, "
+    "-03:30 with DST in force for 11 months of the year, +14, -00:45, -11), set before gallia is imported; hr subprocesses inherit it"
 )
 ASSUMPTIONS = [
     "text is any sequence of Unicode scalar values (no lone surrogates); every text starts with a unique marker '#id<i>#' and payloads/tags never contain '#id'",
     "for records logged with exception information the reader may expose the formatted trace either in `stacktrace` or appended to the text after a newline (Python's QueueHandler merges it); both are accepted",
-    "timestamps are compared at microsecond resolution (the log stores ISO-8601 with microseconds)",
+    "timestamps are compared at microsecond resolution (the log stores ISO-8601 with microseconds); 'the same timestamp' = the same instant "
+    "as the record's `created`, whatever the local time zone of the writing process is (the statement names no zone; the UTC offset written is not judged)",
     "reader offsets k are only exercised within the valid index range -len <= k < len; for --tail both readings of 'last n' are accepted; records(reverse=True) without offset may mean the whole log reversed or just record 0",
     "gallia only writes .zst; the .gz, plain, prefix-less and stdin inputs are derived by the harness from the decompressed bytes of that file",
     "a .zst input is any sequence of zstd data frames and a .gz input any sequence of gzip members; its content is the concatenation of what "
@@ -173,6 +179,11 @@ EDIT_STAMP = " <redacted-by-the-consumer-of-an-earlier-reading>"
 EDIT_TAG = "edited-by-the-consumer"
 SEVERAL_PARTS = {"zst-frames": "multi-frame-zst", "gz-members": "multi-member-gz"}
 MARK = re.compile(r"#id(\d+)#")
+# local time zone of the process that writes (and reads) the logs: one per shard, POSIX TZ strings (no tzdata needed; the sign of a POSIX
+# offset is 'west of UTC positive').  Classes: UTC | east / west of UTC x whole hours / half hours / quarter hours, incl. the largest
+# offsets in use and a zone whose daylight saving time is in force for most of the year
+ZONES: list[str | None] = [None, "VFA-05:30", "VFB+03", "VFC+03:30", "VFD-12:45", "VFE+09:30", "VFF+03:30VFS,M1.2.0,M12.3.0", "VFG-14",
+                           "VFH+00:45", "VFI+11"]
 
 
 # ---------------------------------------------------------------------------------------------
@@ -268,6 +279,13 @@ def required_reach(tier: str) -> dict[str, int]:
         "reader.reread-after-caller-edit.other-container-with-the-same-lines": 1500,
         "reader.reuse.reread-after-caller-edit": 500, "reader.reuse.reread-after-caller-edit.same-reader-object": 300,
         "hr.read-after-caller-edit": 5000,
+    })
+    # the local time zone of the process that writes and reads the log (one zone per shard)
+    z = "writer.local-time-zone."
+    need.update({
+        z + "utc.log-with-records": 10, z + "east-of-utc.log-with-records": 30, z + "west-of-utc.log-with-records": 30,
+        z + "east-of-utc.offset-whole-hours.log-with-records": 10, z + "west-of-utc.offset-whole-hours.log-with-records": 10,
+        z + "east-of-utc.offset-not-whole-hours.log-with-records": 20, z + "west-of-utc.offset-not-whole-hours.log-with-records": 30,
     })
     if tier == "thorough":
         need.update({"writer.burst": 4, "writer.burst.writer-starved": 3, "writer.burst.free-running": 1, "writer.burst.ge-20000-records": 4,
@@ -635,6 +653,8 @@ class Env:
     created: list[tuple[float, int]] = []
     thread_errors: list[str] = []
     local_tz: Any = None
+    tz: str | None = None  # TZ of this process (None: what the check was started with)
+    tz_class: list[str] = []
     sub_left = 0
     multi_sub_left = 0
     log_no = 0
@@ -658,6 +678,17 @@ def setup_process(ctx: Any, tz: str | None = None) -> None:
     tempfile.tempdir = str(tmp)  # PenlogReader's temporary files stay below the scratch directory
     os.environ["TMPDIR"] = str(tmp)
     Env.local_tz = datetime.timezone(datetime.timedelta(seconds=time.localtime().tm_gmtoff))
+    Env.tz = tz
+    lt = time.localtime()
+    off = lt.tm_gmtoff
+    side = "utc" if off == 0 else ("east-of-utc" if off > 0 else "west-of-utc")
+    Env.tz_class = [side]
+    if off % 3600:
+        Env.tz_class += ["offset-not-whole-hours", f"{side}.offset-not-whole-hours"]
+    elif off:
+        Env.tz_class.append(f"{side}.offset-whole-hours")
+    if lt.tm_isdst > 0:
+        Env.tz_class.append("daylight-saving-time-in-force")
 
     from gallia.log import ColorMode, Loglevel, get_logger, setup_logging
 
@@ -1037,7 +1068,9 @@ class LogState:
 
     def witness_log(self) -> dict[str, Any]:
         specs = self.logdef["specs"]
-        extra = {"read": self.read} if self.read else {}
+        extra: dict[str, Any] = {"read": self.read} if self.read else {}
+        if Env.tz:
+            extra["tz"] = Env.tz
         if len(specs) <= 150 or self.regen is None:
             return dict(self.logdef, **extra)
         return {"file_level": self.logdef["file_level"], "logger": self.logdef["logger"], "regen": self.regen,
@@ -2418,10 +2451,18 @@ def plan(rng: random.Random, st: LogState, budget: int, exhaustive: bool) -> lis
     return core + extra
 
 
+def reach_zone(ctx: Any, st: LogState) -> None:
+    """Which local time zone the process has in which this log is written and read back (only logs with records show a time stamp)."""
+    if st.N:
+        for c in Env.tz_class:
+            ctx.reach(f"writer.local-time-zone.{c}.log-with-records")
+
+
 def process_log(ctx: Any, rng: random.Random, logdef: dict[str, Any], regen: dict[str, Any] | None, exhaustive: bool, deadline: float) -> None:
     st = build_log(ctx, logdef, regen)
     if st is None:
         return
+    reach_zone(ctx, st)
     try:
         est = 0.0006 + st.N * 60e-6 + len(st.raw) / 25e6
         budget = int(min(160, max(45, 2.5 / est)))
@@ -2486,6 +2527,7 @@ def process_burst(ctx: Any, rng: random.Random, seedstr: str, n: int, schedule: 
     st = build_log(ctx, gen_burst_logdef(seedstr, n, schedule), {"burst_seedstr": seedstr, "n": n, "schedule": schedule})
     if st is None:
         return
+    reach_zone(ctx, st)
     try:
         N = st.N
         ctx.sample({"burst": True, "records_logged": n, "records_in_file": N, "raw_bytes": len(st.raw), **st.facts}, force=True)
@@ -2510,7 +2552,7 @@ def process_burst(ctx: Any, rng: random.Random, seedstr: str, n: int, schedule: 
 # ---------------------------------------------------------------------------------------------
 def run(ctx: Any, params: dict[str, Any]) -> None:
     part, parts = params["part"], params["parts"]
-    tz = [None, "VFA-05:30", "VFB+03"][part % 3]
+    tz = ZONES[(part + ctx.seed) % len(ZONES)]
     setup_process(ctx, tz)
     Env.sub_left = params["sub"]
     Env.multi_sub_left = max(1, params["sub"] // 6)
@@ -2535,7 +2577,9 @@ def run(ctx: Any, params: dict[str, Any]) -> None:
 
 
 def replay(ctx: Any, witness: dict[str, Any]) -> None:
-    setup_process(ctx, None)
+    first = (witness.get("logs") or [witness.get("log")])[0]
+    setup_process(ctx, first.get("tz") if isinstance(first, dict) else None)
+
     def expand(log: dict[str, Any]) -> dict[str, Any]:
         if "specs" not in log:
             g = log["regen"]
@@ -2547,7 +2591,7 @@ def replay(ctx: Any, witness: dict[str, Any]) -> None:
     def build(log: dict[str, Any]) -> tuple[LogState | None, LogState | None]:
         """-> (state to drop afterwards, state that the witness reads: the log itself or the second log of its pair)"""
         read = log.get("read", "")
-        top = build_log(ctx, {k: v for k, v in log.items() if k != "read"}, None)
+        top = build_log(ctx, {k: v for k, v in log.items() if k not in ("read", "tz")}, None)
         return top, (top.second if top is not None and read == "second" else top)
 
     if "logs" in witness:  # several files on one hr command line
